@@ -117,6 +117,17 @@ func runC19(c *Ctx) {
 			}
 		}
 		r.Check("C19.1", "on-initialize", registered, c.U.Pos(cfgFn.Pos()), c.U.RelName(cfgFn)+" runs through cobra.OnInitialize (after flag parsing, before any subcommand)")
+		// the schema chosen on the command line validates what the configured cache loads:
+		// Configure scans at once, so the validator is installed before it in the same
+		// initialiser (another OnInitialize hook runs in the order the package's files
+		// happen to be initialised in)
+		for _, call := range c.callsTo(cfgFn, false, "cdi", "Configure") {
+			before := ir.MustPassBefore(cfgFn, call.(ssa.Instruction), func(in ssa.Instruction) bool {
+				c2, ok := in.(ssa.CallInstruction)
+				return ok && c.U.CalleeIs(c2, "cdi", "SetSpecValidator")
+			})
+			r.Check("C19.1", "validator-before-scan", before, c.pos(call), "cdi.SetSpecValidator(<the --schema choice>) is called in "+c.U.RelName(cfgFn)+" on every path before cdi.Configure, whose scan is what all subcommands report")
+		}
 		// unconditional except for 'no directories given'
 		for _, call := range c.callsTo(cfgFn, false, "cdi", "Configure") {
 			gs := c.guardsOf(cfgFn, call.(ssa.Instruction))
